@@ -85,6 +85,10 @@ print_public_key(const public_key_t *pk)
 // compute the commitment with ideal to isogeny clapotis
 // and apply it to the basis of E0 (together with the multiplication by some scalar u)
 // the scalar adjusting_factor is a scalar through which the points of the basis are multiplied
+#ifdef SQISIGN_SQISIGN2D_WEST_AC24_VERIF
+int verif_find_uv_branch(const quat_left_ideal_t *lideal); /* dim2id2iso.c */
+#endif
+
 int
 commit(ec_curve_t *E_com, ec_basis_t *basis_even_com, quat_left_ideal_t *lideal_com)
 {
@@ -94,9 +98,17 @@ commit(ec_curve_t *E_com, ec_basis_t *basis_even_com, quat_left_ideal_t *lideal_
     ec_basis_t B_0_two;
     ibz_init(&n);
 
+#ifdef SQISIGN_SQISIGN2D_WEST_AC24_VERIF
+    /* steering of find_uv's re-ordering branch: only re-draws the commitment ideal */
+    int verif_uv_want = verif_env_int("SQI_VERIF_UV_BRANCH", 0), verif_uv_tries = 0;
+    do {
+#endif
     // generate a random ideal of random norm for the secret ideal
     generate_random_prime(&n, 1, ibz_bitsize(&QUATALG_PINFTY.p) );
     sampling_random_ideal_O0(lideal_com, &n, 1);
+#ifdef SQISIGN_SQISIGN2D_WEST_AC24_VERIF
+    } while (verif_uv_want && verif_find_uv_branch(lideal_com) != verif_uv_want && ++verif_uv_tries < 200000);
+#endif
 
     // ideal to isogeny clapotis
     found = dim2id2iso_arbitrary_isogeny_evaluation(basis_even_com, E_com, lideal_com);
@@ -318,6 +330,8 @@ sample_response(quat_alg_elem_t *x,
             int verif_v2 = (int)mpz_scan1(norm, 0) - verif_bt;
             if (!verif_h1_accept(verif_v2, verif_bt))
                 found = 0;
+            if (verif_h1_odd() && mpz_sizeinbase(verif_content, 2) == (size_t)verif_bt + 1)
+                found = 0; /* content is exactly 2^bt */
             ibz_finalize(&verif_content);
             ibz_vec_4_finalize(&verif_coord);
         }
@@ -526,6 +540,9 @@ verif_commit_done:;
     // O0 we assume that the length of the backtracking is smaller than 60;
     backtracking = ibz_two_adic(&tmp);
     assert(backtracking < SQIsign2D_backtracking_bound);
+#ifdef SQISIGN_SQISIGN2D_WEST_AC24_VERIF
+    int verif_content_pow2 = (mpz_sizeinbase(tmp, 2) == (size_t)backtracking + 1); /* content == 2^backtracking */
+#endif
     ibz_pow(&tmp, &ibz_const_two, backtracking);
     ibz_div(&lattice_content, &remain, &lattice_content, &tmp);
 
@@ -547,7 +564,7 @@ verif_commit_done:;
 #ifdef SQISIGN_SQISIGN2D_WEST_AC24_VERIF
     /* H1: the response that was sampled does not meet the steering: give up with the hook-only
        code -1 (the harness calls again; no clean-up on this hook-only path) */
-    if (verif_h1_active() && !verif_h1_accept(exp_diadic_val_full_resp, backtracking))
+    if (verif_h1_active() && (!verif_h1_accept(exp_diadic_val_full_resp, backtracking) || (verif_h1_odd() && verif_content_pow2)))
         return -1;
 #endif
     // removing the power of two part
